@@ -64,32 +64,44 @@ def selftest_trace(ctx, module, cfgname, cfg, trace, name):
             return True, v + 1
         return False, v
 
-    # the middle event, or the next one after it that has a logged field to corrupt
+    def corrupt(e):
+        if isinstance(e.get("ok"), bool):
+            e["ok"] = not e["ok"]                        # the verdict always matters
+            return True
+        if e.get("ev") == "Look" and isinstance(e.get("i"), int):
+            e["i"] += 1                                  # the RESULT of a lookup
+            return True
+        return bump(e)[0]
+
+    # A corruption may turn the trace into another VALID trace (e.g. the time of an add that is dropped as a repeat
+    # anyway, a parameter of an iterator that is abandoned at once).  Up to six different events are tried, spread
+    # over the trace; the binding is void only if NO corruption is ever rejected.
     mid = len(idxs) // 2
-    ok = False
-    for i in idxs[mid:] + idxs[:mid]:
-        if isinstance(lines[i].get("ok"), bool):
-            lines[i]["ok"] = not lines[i]["ok"]          # the verdict always matters
-            ok = True
-        elif lines[i].get("ev") == "Look" and isinstance(lines[i].get("i"), int):
-            lines[i]["i"] += 1                           # the RESULT of a lookup (an argument may be corrupted into an equivalent one)
-            ok = True
-        else:
-            ok, _ = bump(lines[i])
-        if ok:
+    order = idxs[mid:] + idxs[:mid]
+    step = max(1, len(order) // 6)
+    tried = []
+    for start in range(0, len(order), step):
+        cand = next((i for i in order[start:] if corrupt(json.loads(json.dumps(lines[i])))), None)
+        if cand is None or cand in tried:
+            continue
+        tried.append(cand)
+        mutated = [json.loads(json.dumps(e)) for e in lines]
+        corrupt(mutated[cand])
+        bad = trace + ".corrupt"
+        with open(bad, "w") as f:
+            for e in mutated:
+                f.write(json.dumps(e, separators=(",", ":")) + "\n")
+        st0, tr0 = ctx.states, ctx.transitions
+        res = tlc_trace(ctx, module, cfgname + "_selftest", cfg, bad, tag="selftest")
+        ctx.states, ctx.transitions = st0, tr0
+        if not res["accepted"]:
+            ctx.runs.append(dict(step="selftest", trace=name, corrupted_event=cand, rejected=True, attempts=len(tried)))
+            return
+        if len(tried) >= 6:
             break
-    if not ok:
+    if not tried:
         raise ToolError("selftest: nothing to corrupt in %s" % trace)
-    bad = trace + ".corrupt"
-    with open(bad, "w") as f:
-        for e in lines:
-            f.write(json.dumps(e, separators=(",", ":")) + "\n")
-    st0, tr0 = ctx.states, ctx.transitions
-    res = tlc_trace(ctx, module, cfgname + "_selftest", cfg, bad, tag="selftest")
-    ctx.states, ctx.transitions = st0, tr0
-    if res["accepted"]:
-        raise ToolError("binding self-test failed: corrupted trace %s (event %d) was ACCEPTED" % (bad, i))
-    ctx.runs.append(dict(step="selftest", trace=name, corrupted_event=i, rejected=True))
+    raise ToolError("binding self-test failed: %d corrupted versions of %s (events %s) were all ACCEPTED" % (len(tried), trace, tried))
 
 
 # ----------------------------------------------------------------------------
